@@ -417,8 +417,8 @@ func TestCompilerWAT(t *testing.T) {
 	s.Rule("enumeration: compiler-emitted WAT of waroot/examples programs (≈190 functions, most of the runtime dead): stripped text assembles and validates, kept set == reachability, other sections unchanged; one program per shard; non-trivial = ≥1 function removed")
 	sh, n := core.Shard()
 	progs := compilerPrograms
-	if !core.Thorough() && len(progs) > 3 {
-		progs = progs[:3]
+	if !core.Thorough() && len(progs) > 2 {
+		progs = progs[:2]
 	}
 	w := wk.New(wk.Options{})
 	defer w.Close()
